@@ -9,6 +9,18 @@ translated functions.  Anything else raises Untranslatable(reason) — the calle
 
 Python evaluates operands left to right; every partial operation (to_bytes, indexing, calls) is hoisted into an
 option-monad bind in evaluation order, so exceptions are modelled as None.
+
+Second set (used by gen_funcs2.py; semantics in coq/Lib/Py2.v) — all of it is reached only where the first set
+raised Untranslatable, so the output for the first set is unchanged:
+  str values (list of code points; literals, +, * int, slices, len), int lists (+, len, l[i], l[a:b]),
+  `x in [literals]`, list comprehensions over a str / list / bytes (pure int element) or over range(literal)
+  (unrolled), ord() of a str element, `a, b = divmod(x, literal)`, a ** b, pow(a, e, m) with an exponent that is
+  statically a non-negative literal sum, bytes.lstrip(literal), keyword / default arguments of translated callees,
+  module-level int constants (value read from the imported module by the caller and passed in Fn.globals),
+  methods (Fn.cls) whose `self.x` reads are declared parameters (Fn.attrs; any store to self.x is refused),
+  a declared leading statement list that is skipped (Fn.skip_first: exact source text + the types it establishes),
+  a statement range instead of the whole body (Fn.outputs: the final `return` is replaced by the tuple of the
+  named variables), and if-statements translated as a join (Fn.join_ifs) instead of duplicating the continuation.
 """
 import ast
 
@@ -18,16 +30,31 @@ class Untranslatable(Exception):
 
 
 INT, BYTES, BOOL, INTS = 'int', 'bytes', 'bool', 'ints'
+STR, CHAR = 'str', 'char'     # str = list of code points; char = one element of a str (its code point)
 
 
 class Fn:
-    def __init__(self, name, args, ret, coq_name=None, partial=True, while_fuel=None):
+    def __init__(self, name, args, ret, coq_name=None, partial=True, while_fuel=None, cls=None, attrs=None,
+                 globals_=None, skip_first=None, outputs=None, join_ifs=False, start_at=None, range_inputs=None,
+                 end_before=None):
         self.name, self.args, self.ret, self.partial = name, args, ret, partial
         self.while_fuel = list(while_fuel or [])   # Python expressions (int) bounding the iterations of each while loop, in order
-        self.coq_name = coq_name or 'gen_' + name
+        self.coq_name = coq_name or 'gen_' + (cls + '_' if cls else '') + name
+        self.cls = cls                              # class name when the function is a method
+        self.attrs = list(attrs or [])              # [(attribute, type)]: `self.attribute` reads become parameters self_attribute
+        self.globals = dict(globals_ or {})         # module-level int constants: name -> value (filled in by the caller)
+        self.skip_first = list(skip_first or [])    # [(exact source text of a leading statement, {variable: type it establishes})]
+        self.outputs = outputs                      # statement range: variables returned in place of the final `return`
+        self.join_ifs = join_ifs
+        # a statement range in the middle of a body: it starts at the first top-level `start_at = ...` assignment
+        # with exactly the variables range_inputs [(name, type)] in scope (their types at that point are DECLARED,
+        # not checked: the statements before are not translated) and ends before the top-level statement whose
+        # source text is end_before (or at the final return when end_before is None)
+        self.start_at, self.range_inputs, self.end_before = start_at, list(range_inputs or []), end_before
+        self.defaults = {}                          # parameter -> ast of its default value (filled in by translate_function)
 
 
-COQ_TY = {INT: 'Z', BYTES: 'bytes', BOOL: 'bool', INTS: '(list Z)'}
+COQ_TY = {INT: 'Z', BYTES: 'bytes', BOOL: 'bool', INTS: '(list Z)', STR: '(list Z)', CHAR: 'Z'}
 
 
 def coq_type(t):
@@ -44,6 +71,28 @@ class Tr:
         self.consts = {}        # loop variables of unrolled range() loops -> literal
         self.static_len = {}    # list variables assigned a literal -> length
         self.while_fuel = []
+        self.attrs = {}         # self.<attr> -> type
+        self.globals = {}       # module-level int constants -> value
+        self.static_int = {}    # variables assigned an int literal in straight-line code -> value
+        self.join_ifs = False
+
+    def static_eval(self, e):
+        """value of an int expression built from literals, unrolled loop variables and variables last assigned a
+        literal; None when it cannot be determined"""
+        if isinstance(e, ast.Constant) and isinstance(e.value, int) and not isinstance(e.value, bool):
+            return e.value
+        if isinstance(e, ast.Name):
+            if e.id in self.consts:
+                return self.consts[e.id]
+            if e.id in self.env:
+                return self.static_int.get(e.id)
+            return self.globals.get(e.id)
+        if isinstance(e, ast.BinOp) and isinstance(e.op, (ast.Add, ast.Sub, ast.Mult)):
+            a, b = self.static_eval(e.left), self.static_eval(e.right)
+            if a is None or b is None:
+                return None
+            return a + b if isinstance(e.op, ast.Add) else a - b if isinstance(e.op, ast.Sub) else a * b
+        return None
 
     def fresh(self):
         self.counter += 1
@@ -60,6 +109,8 @@ class Tr:
                 return [], ('(%d)' % v) if v < 0 else str(v), INT
             if isinstance(v, bytes):
                 return [], '[' + '; '.join('x%02x' % b for b in v) + ']', BYTES
+            if isinstance(v, str):
+                return [], '[' + '; '.join(str(ord(c)) for c in v) + ']', STR
             raise Untranslatable('constant %r' % (v,))
         if isinstance(e, ast.Name) and e.id in self.consts:
             return [], str(self.consts[e.id]), INT
@@ -73,8 +124,16 @@ class Tr:
             return [], '[' + '; '.join(terms) + ']', INTS
         if isinstance(e, ast.Name):
             if e.id not in self.env:
+                if e.id in self.globals:
+                    v = self.globals[e.id]
+                    return [], ('(%d)' % v) if v < 0 else str(v), INT
                 raise Untranslatable('unknown name ' + e.id)
             return [], e.id, self.env[e.id]
+        if isinstance(e, ast.Attribute) and isinstance(e.value, ast.Name) and e.value.id == 'self' \
+                and 'self' not in self.env and e.attr in self.attrs and isinstance(e.ctx, ast.Load):
+            return [], 'self_' + e.attr, self.attrs[e.attr]
+        if isinstance(e, ast.ListComp):
+            return self.listcomp(e)
         if isinstance(e, ast.UnaryOp):
             b, t, ty = self.expr(e.operand)
             if isinstance(e.op, ast.Not):
@@ -98,6 +157,13 @@ class Tr:
                     if op in (ast.FloorDiv, ast.Mod) and not (isinstance(e.right, ast.Constant) and e.right.value > 0):
                         raise Untranslatable('division by a non-literal')
                     return b1 + b2, table[op] % (t1, t2), INT
+                if op is ast.Pow:
+                    n = self.fresh()
+                    return b1 + b2 + [(n, 'py_pow %s %s' % (t1, t2))], n, INT
+            if y1 == y2 and y1 in (INTS, STR) and op is ast.Add:
+                return b1 + b2, '(%s ++ %s)' % (t1, t2), y1
+            if y1 == STR and y2 == INT and op is ast.Mult:
+                return b1 + b2, '(py_lrepeat %s %s)' % (t1, t2), STR
             raise Untranslatable('binary op %s on %s,%s' % (op.__name__, y1, y2))
         if isinstance(e, ast.BoolOp):
             parts = [self.expr(v) for v in e.values]
@@ -115,7 +181,19 @@ class Tr:
             cur = first
             out = None
             for op, right in zip(e.ops, e.comparators):
+                if isinstance(op, (ast.In, ast.NotIn)) and not (
+                        isinstance(right, ast.List) and right.elts and all(
+                            isinstance(x, ast.Constant) and isinstance(x.value, int) and not isinstance(x.value, bool)
+                            for x in right.elts)):
+                    raise Untranslatable('membership test other than int in [literals]')
+                if isinstance(op, (ast.Is, ast.IsNot)):
+                    # a value of the typed fragment is never None (a callee's None result is already "no result")
+                    if len(e.ops) != 1 or not (isinstance(right, ast.Constant) and right.value is None):
+                        raise Untranslatable('identity test other than `x is None`')
+                    return binds, 'false' if isinstance(op, ast.Is) else 'true', BOOL
                 r = self.expr(right)
+                if r[0] and out is not None:
+                    raise Untranslatable('partial operation in the tail of a chained comparison')
                 binds += r[0]
                 c = self.compare(type(op), cur, r)
                 out = c if out is None else '(andb %s %s)' % (out, c)
@@ -135,8 +213,27 @@ class Tr:
                 bi, ti, yi = self.expr(e.slice)
                 if bi or yi != INT or not ti.isdigit() or not isinstance(e.value, ast.Name) \
                         or int(ti) >= self.static_len.get(e.value.id, 0):
-                    raise Untranslatable('list index must be a literal inside a literal list')
+                    if yi != INT:
+                        raise Untranslatable('list index must be a literal inside a literal list')
+                    n = self.fresh()
+                    return bv + bi + [(n, 'py_lindex %s %s' % (tv, ti))], n, INT
                 return bv, '(nth %s %s 0)' % (ti, tv), INT
+            if yv in (INTS, STR) and isinstance(e.slice, ast.Slice) and e.slice.step is None:
+                binds = list(bv)
+                lo = hi = 'None'
+                if e.slice.lower is not None:
+                    b, t, y = self.expr(e.slice.lower)
+                    if y != INT:
+                        raise Untranslatable('slice bound')
+                    binds += b
+                    lo = '(Some %s)' % t
+                if e.slice.upper is not None:
+                    b, t, y = self.expr(e.slice.upper)
+                    if y != INT:
+                        raise Untranslatable('slice bound')
+                    binds += b
+                    hi = '(Some %s)' % t
+                return binds, '(py_lslice %s %s %s)' % (tv, lo, hi), yv
             if yv != BYTES:
                 raise Untranslatable('subscript of non-bytes')
             s = e.slice
@@ -165,6 +262,8 @@ class Tr:
             f = e.func
             if isinstance(f, ast.Name) and f.id == 'len' and len(e.args) == 1:
                 b, t, y = self.expr(e.args[0])
+                if y in (INTS, STR):
+                    return b, '(py_llen %s)' % t, INT
                 if y != BYTES:
                     raise Untranslatable('len of non-bytes')
                 return b, '(py_len %s)' % t, INT
@@ -176,12 +275,74 @@ class Tr:
                 b, t, y = self.expr(e.args[0].elts[0])
                 n = self.fresh()
                 return b + [(n, 'py_byte1 %s' % t)], n, BYTES
+            if isinstance(f, ast.Name) and f.id == 'bytes' and len(e.args) == 1 and not e.keywords and 'bytes' not in self.env \
+                    and not isinstance(e.args[0], (ast.List, ast.Constant)):
+                b, t, y = self.expr(e.args[0])
+                if y != INTS:
+                    raise Untranslatable('bytes() of something that is not a list of ints')
+                n = self.fresh()
+                return b + [(n, 'py_bytes_of %s' % t)], n, BYTES
             if isinstance(f, ast.Name) and f.id == 'normalize_var' and len(e.args) == 1:
                 # encoding.normalize_var is the identity on bytes (the model is typed: argument is bytes)
                 b, t, y = self.expr(e.args[0])
                 if y != BYTES:
                     raise Untranslatable('normalize_var of non-bytes')
                 return b, t, y
+            if isinstance(f, ast.Name) and f.id == 'ord' and len(e.args) == 1 and not e.keywords and 'ord' not in self.env:
+                b, t, y = self.expr(e.args[0])
+                if y != CHAR:
+                    raise Untranslatable('ord of something that is not an element of a str')
+                return b, t, INT
+            if isinstance(f, ast.Name) and f.id == 'pow' and len(e.args) == 3 and not e.keywords and 'pow' not in self.env:
+                ex = self.static_eval(e.args[1])
+                if ex is None or ex < 0:
+                    raise Untranslatable('pow(b, e, m): the exponent is not statically a non-negative literal')
+                binds, terms = [], []
+                for a in e.args:
+                    b, t, y = self.expr(a)
+                    if y != INT:
+                        raise Untranslatable('pow argument type')
+                    binds += b
+                    terms.append(t)
+                n = self.fresh()
+                return binds + [(n, 'py_pow3 %s' % ' '.join(terms))], n, INT
+            if isinstance(f, ast.Name) and f.id in self.fns and f.id not in self.env \
+                    and (e.keywords or len(e.args) != len(self.fns[f.id].args)):
+                fn = self.fns[f.id]
+                names = [a for a, _ in fn.args]
+                given = {}
+                if len(e.args) > len(names):
+                    raise Untranslatable('too many arguments for ' + f.id)
+                for a, nm in zip(e.args, names):
+                    given[nm] = a
+                for kw in e.keywords:
+                    if kw.arg is None or kw.arg not in names or kw.arg in given:
+                        raise Untranslatable('keyword argument of ' + f.id)
+                    given[kw.arg] = kw.value
+                # Python evaluates positional arguments, then keyword arguments, in source order; defaults were
+                # evaluated at definition time and must be literals
+                order = [nm for _, nm in zip(e.args, names)] + [kw.arg for kw in e.keywords]
+                binds, val = [], {}
+                for nm in order:
+                    b, t, y = self.expr(given[nm])
+                    if y != dict(fn.args)[nm]:
+                        raise Untranslatable('argument type of %s.%s' % (f.id, nm))
+                    binds += b
+                    val[nm] = t
+                for nm in names:
+                    if nm not in val:
+                        d = fn.defaults.get(nm)
+                        if not isinstance(d, ast.Constant):
+                            raise Untranslatable('missing argument %s of %s without a literal default' % (nm, f.id))
+                        b, t, y = Tr({}, {}).expr(d)
+                        if b or y != dict(fn.args)[nm]:
+                            raise Untranslatable('default of %s.%s' % (f.id, nm))
+                        val[nm] = t
+                call = '%s %s' % (fn.coq_name, ' '.join(val[nm] for nm in names))
+                if fn.partial:
+                    n = self.fresh()
+                    return binds + [(n, call)], n, fn.ret
+                return binds, '(%s)' % call, fn.ret
             if isinstance(f, ast.Name) and f.id in self.fns:
                 fn = self.fns[f.id]
                 binds, terms = [], []
@@ -195,6 +356,12 @@ class Tr:
                     return binds + [(n, call)], n, fn.ret
                 return binds, '(%s)' % call, fn.ret
             if isinstance(f, ast.Attribute):
+                if f.attr == 'lstrip' and len(e.args) == 1 and not e.keywords and isinstance(e.args[0], ast.Constant) \
+                        and isinstance(e.args[0].value, bytes):
+                    b, t, y = self.expr(f.value)
+                    if y != BYTES:
+                        raise Untranslatable('lstrip of non-bytes')
+                    return b, '(py_lstrip %s %s)' % (self.expr(e.args[0])[1], t), BYTES
                 if f.attr == 'bit_length' and not e.args:
                     b, t, y = self.expr(f.value)
                     return b, '(py_bit_length %s)' % t, INT
@@ -226,6 +393,45 @@ class Tr:
             raise Untranslatable('call ' + ast.dump(f)[:60])
         raise Untranslatable('expression ' + type(e).__name__)
 
+    def listcomp(self, e):
+        """[elt for x in it]: one generator, no condition.  Over range(literal): unrolled, the element may be partial
+        (binds in evaluation order).  Over a str / int list / bytes value: map of a pure int element."""
+        if len(e.generators) != 1:
+            raise Untranslatable('list comprehension with several generators')
+        g = e.generators[0]
+        if g.ifs or g.is_async or not isinstance(g.target, ast.Name):
+            raise Untranslatable('list comprehension shape')
+        x = g.target.id
+        it = g.iter
+        saved_env, saved_consts = dict(self.env), dict(self.consts)
+        try:
+            if isinstance(it, ast.Call) and isinstance(it.func, ast.Name) and it.func.id == 'range' and 'range' not in self.env \
+                    and len(it.args) == 1 and not it.keywords and isinstance(it.args[0], ast.Constant) \
+                    and isinstance(it.args[0].value, int) and 0 <= it.args[0].value <= 64:
+                self.env.pop(x, None)
+                binds, terms = [], []
+                for k in range(it.args[0].value):
+                    self.consts[x] = k
+                    b, t, y = self.expr(e.elt)
+                    if y != INT:
+                        raise Untranslatable('list comprehension element type')
+                    binds += b
+                    terms.append(t)
+                return binds, '[' + '; '.join(terms) + ']', INTS
+            bi, ti, yi = self.expr(it)
+            if yi not in (STR, INTS, BYTES):
+                raise Untranslatable('list comprehension over ' + str(yi))
+            self.consts.pop(x, None)
+            self.env[x] = CHAR if yi == STR else INT
+            b, t, y = self.expr(e.elt)
+            if b or y != INT:
+                raise Untranslatable('list comprehension element must be a total int expression')
+            if yi == BYTES:
+                return bi, '(map (fun %s__b => (let %s := bz %s__b in %s)) %s)' % (x, x, x, t, ti), INTS
+            return bi, '(map (fun %s => %s) %s)' % (x, t, ti), INTS
+        finally:
+            self.env, self.consts = saved_env, saved_consts
+
     def as_bool(self, t, ty):
         if ty == BOOL:
             return t
@@ -235,10 +441,18 @@ class Tr:
             return '(negb (py_len %s =? 0))' % t
         if ty == INTS:
             return '(negb (Nat.eqb (length %s) 0))' % t
+        if ty == STR:
+            return '(negb (py_llen %s =? 0))' % t
         raise Untranslatable('truthiness of ' + str(ty))
 
     def compare(self, op, l, r):
         (_, t1, y1), (_, t2, y2) = l, r
+        if op in (ast.In, ast.NotIn):
+            # the caller has checked that the right operand is a list display of int literals
+            if y1 == INT and y2 == INTS and not r[0]:
+                c = '(py_in %s %s)' % (t1, t2)
+                return c if op is ast.In else '(negb %s)' % c
+            raise Untranslatable('membership test other than int in [literals]')
         if y1 == INT and y2 == INT:
             table = {ast.Lt: '(%s <? %s)', ast.LtE: '(%s <=? %s)', ast.Gt: '(%s >? %s)', ast.GtE: '(%s >=? %s)',
                      ast.Eq: '(%s =? %s)', ast.NotEq: '(negb (%s =? %s))'}
@@ -254,6 +468,10 @@ class Tr:
         for node in body:
             for n in ast.walk(node):
                 tgt = None
+                if isinstance(n, ast.Assign) and len(n.targets) == 1 and isinstance(n.targets[0], ast.Tuple):
+                    for el in n.targets[0].elts:
+                        if isinstance(el, ast.Name) and el.id in self.env and el.id not in names:
+                            names.append(el.id)
                 if isinstance(n, ast.Assign) and len(n.targets) == 1 and isinstance(n.targets[0], ast.Name):
                     tgt = n.targets[0].id
                 elif isinstance(n, ast.AugAssign) and isinstance(n.target, ast.Name):
@@ -266,6 +484,8 @@ class Tr:
         return names
 
     def tuple_of(self, vs):
+        if not vs:
+            return 'tt'
         return vs[0] if len(vs) == 1 else '(' + ', '.join(vs) + ')'
 
     def pattern_of(self, vs):
@@ -305,6 +525,9 @@ class Tr:
         if isinstance(s, _Yield):
             if rest:
                 raise Untranslatable('internal: yield not last')
+            for v in s.vars:
+                if v not in self.env:
+                    raise Untranslatable('variable %s is not defined on every path to the end of the block' % v)
             return 'Some ' + self.tuple_of(s.vars)
         if isinstance(s, ast.Return) and isinstance(s.value, ast.Constant) and s.value.value is None:
             return 'None'      # Python None result = no result
@@ -335,6 +558,8 @@ class Tr:
             carried = self.carried(s.body)
             if not carried:
                 raise Untranslatable('loop without carried variables')
+            for v in carried:
+                self.static_int.pop(v, None)
             saved = dict(self.env)
             self.env[s.target.id] = INT
             elem = s.target.id if yi == INTS else '(bz %s)' % s.target.id
@@ -357,6 +582,8 @@ class Tr:
             if bf or yf != INT:
                 raise Untranslatable('while fuel expression')
             carried = self.carried(s.body)
+            for v in carried:
+                self.static_int.pop(v, None)
             bc, tc, yc = self.expr(s.test)
             if bc:
                 raise Untranslatable('partial operation in while condition')
@@ -388,13 +615,45 @@ class Tr:
             return self.wrap(b, 'Some %s' % t)
         if isinstance(s, ast.Raise):
             return 'None'
+        if isinstance(s, ast.Assign) and len(s.targets) == 1 and isinstance(s.targets[0], ast.Tuple):
+            # a, b = divmod(x, <positive literal>)
+            tg, v = s.targets[0], s.value
+            if not (len(tg.elts) == 2 and all(isinstance(x, ast.Name) for x in tg.elts) and tg.elts[0].id != tg.elts[1].id
+                    and isinstance(v, ast.Call) and isinstance(v.func, ast.Name) and v.func.id == 'divmod'
+                    and 'divmod' not in self.env and len(v.args) == 2 and not v.keywords
+                    and isinstance(v.args[1], ast.Constant) and isinstance(v.args[1].value, int)
+                    and not isinstance(v.args[1].value, bool) and v.args[1].value > 0):
+                raise Untranslatable('tuple assignment other than a, b = divmod(x, positive literal)')
+            b, t, y = self.expr(v.args[0])
+            if y != INT:
+                raise Untranslatable('divmod argument type')
+            d = str(v.args[1].value)
+            qn, rn = tg.elts[0].id, tg.elts[1].id
+            saved = dict(self.env)
+            saved_len, saved_int = dict(self.static_len), dict(self.static_int)
+            for nm in (qn, rn):
+                self.env[nm] = INT
+                self.static_len.pop(nm, None)
+                self.static_int.pop(nm, None)
+                if nm in self.consts:
+                    raise Untranslatable('assignment to the variable of an unrolled loop')
+            r = self.wrap(b, "(let '(%s, %s) := ((%s / %s), (%s mod %s)) in %s)" % (qn, rn, t, d, t, d, self.stmts(rest, ret)))
+            self.env, self.static_len, self.static_int = saved, saved_len, saved_int
+            return r
         if isinstance(s, ast.Assign):
             if len(s.targets) != 1 or not isinstance(s.targets[0], ast.Name):
                 raise Untranslatable('assignment target')
             name = s.targets[0].id
+            if name in self.consts:
+                raise Untranslatable('assignment to the variable of an unrolled loop')
             b, t, y = self.expr(s.value)
             saved = dict(self.env)
             saved_len = dict(self.static_len)
+            saved_int = dict(self.static_int)
+            if isinstance(s.value, ast.Constant) and isinstance(s.value.value, int) and not isinstance(s.value.value, bool):
+                self.static_int[name] = s.value.value
+            else:
+                self.static_int.pop(name, None)
             self.env[name] = y
             if isinstance(s.value, ast.List):
                 self.static_len[name] = len(s.value.elts)
@@ -403,6 +662,7 @@ class Tr:
             r = self.wrap(b, '(let %s := %s in %s)' % (name, t, self.stmts(rest, ret)))
             self.env = saved
             self.static_len = saved_len
+            self.static_int = saved_int
             return r
         if isinstance(s, ast.AugAssign):
             if not isinstance(s.target, ast.Name) or not isinstance(s.op, (ast.Add, ast.Sub, ast.BitXor, ast.BitOr, ast.BitAnd)):
@@ -416,6 +676,25 @@ class Tr:
                     and isinstance(s.test.operand.func, ast.Name) and s.test.operand.func.id == 'isinstance'
                     and len(s.body) == 1 and isinstance(s.body[0], ast.Raise) and not s.orelse):
                 return self.stmts(rest, ret)
+            if self.join_ifs and rest and not any(isinstance(n, ast.Return) for part in (s.body, s.orelse)
+                                                   for st in part for n in ast.walk(st)):
+                # no branch returns: the branches compute the new values of the variables they assign (None when
+                # they raise) and the continuation is emitted once
+                b, t, y = self.expr(s.test)
+                t = self.as_bool(t, y)
+                carried = self.carried(list(s.body) + list(s.orelse))
+                saved = dict(self.env)
+                saved_len, saved_int = dict(self.static_len), dict(self.static_int)
+                then = self.stmts(list(s.body) + [_Yield(carried)], ret)
+                self.env, self.static_len, self.static_int = dict(saved), dict(saved_len), dict(saved_int)
+                els = self.stmts(list(s.orelse) + [_Yield(carried)], ret)
+                self.env, self.static_len, self.static_int = saved, saved_len, saved_int
+                for v in carried:
+                    self.static_len.pop(v, None)
+                    self.static_int.pop(v, None)
+                cont = self.stmts(rest, ret)
+                return self.wrap(b, '(match (if %s then %s else %s) with Some %s => %s | None => None end)' % (
+                    t, then, els, self.tuple_of(carried) if carried else '_', cont))
             b, t, y = self.expr(s.test)
             t = self.as_bool(t, y)
             saved = dict(self.env)
@@ -442,20 +721,88 @@ class _Yield:
         self.vars = vars
 
 
-def translate_function(src_tree, fn, fns):
-    node = None
-    for n in src_tree.body:
-        if isinstance(n, ast.FunctionDef) and n.name == fn.name:
-            node = n
-    if node is None:
+ALLOWED_DECORATORS = ('property', 'staticmethod')
+
+
+def find_function(src_tree, fn):
+    scope = src_tree.body
+    if fn.cls:
+        classes = [n for n in src_tree.body if isinstance(n, ast.ClassDef) and n.name == fn.cls]
+        if len(classes) != 1:
+            raise Untranslatable('class %s not found exactly once' % fn.cls)
+        scope = classes[0].body
+    nodes = [n for n in scope if isinstance(n, ast.FunctionDef) and n.name == fn.name]
+    if fn.cls and len(nodes) != 1:
+        raise Untranslatable('method %s.%s not found exactly once' % (fn.cls, fn.name))
+    if not nodes:
         raise Untranslatable('function %s not found' % fn.name)
+    return nodes[-1]
+
+
+def translate_function(src_tree, fn, fns):
+    node = find_function(src_tree, fn)
+    decos = [d.id if isinstance(d, ast.Name) else None for d in node.decorator_list]
+    if any(d not in ALLOWED_DECORATORS for d in decos):
+        raise Untranslatable('decorator on ' + fn.name)
     params = [a.arg for a in node.args.args]
-    if params != [a for a, _ in fn.args] or node.args.vararg or node.args.kwarg:
+    if fn.cls and 'staticmethod' not in decos:
+        if not params or params[0] != 'self':
+            raise Untranslatable('method %s without self' % fn.name)
+        params = params[1:]
+    if params != [a for a, _ in fn.args] or node.args.vararg or node.args.kwarg or node.args.kwonlyargs \
+            or getattr(node.args, 'posonlyargs', None):
         raise Untranslatable('signature of %s changed: %r' % (fn.name, params))
+    all_params = [a.arg for a in node.args.args]
+    fn.defaults = dict(zip(all_params[len(all_params) - len(node.args.defaults):], node.args.defaults))
+    stored = set()
+    for n in ast.walk(node):
+        if isinstance(n, ast.Name) and isinstance(n.ctx, (ast.Store, ast.Del)):
+            stored.add(n.id)
+        if isinstance(n, (ast.Global, ast.Nonlocal)):
+            raise Untranslatable('global / nonlocal statement in ' + fn.name)
+    for g in fn.globals:
+        if g in stored or g in all_params:
+            raise Untranslatable('module constant %s is rebound inside %s' % (g, fn.name))
+    if fn.cls and 'self' in stored:
+        raise Untranslatable('self is rebound inside ' + fn.name)
     tr = Tr(fns, dict(fn.args))
     tr.while_fuel = list(fn.while_fuel)
-    body = tr.stmts(list(node.body), fn.ret)
+    tr.attrs = dict(fn.attrs) if fn.cls and 'staticmethod' not in decos else {}
+    tr.globals = dict(fn.globals)
+    tr.join_ifs = fn.join_ifs
+    body = list(node.body)
+    if fn.skip_first or fn.outputs is not None:
+        if body and isinstance(body[0], ast.Expr) and isinstance(body[0].value, ast.Constant) and isinstance(body[0].value.value, str):
+            body = body[1:]
+        for text, types in fn.skip_first:
+            if not body or ast.unparse(body[0]) != text:
+                raise Untranslatable('leading statement of %s is not %r' % (fn.name, text))
+            body = body[1:]
+            tr.env.update(types)
+    if fn.start_at is not None:
+        idx = [i for i, st in enumerate(body) if isinstance(st, ast.Assign) and len(st.targets) == 1
+               and isinstance(st.targets[0], ast.Name) and st.targets[0].id == fn.start_at]
+        if not idx:
+            raise Untranslatable('%s: no top-level assignment to %s' % (fn.name, fn.start_at))
+        body = body[idx[0]:]
+        tr.env = dict(fn.range_inputs)
+    if fn.end_before is not None:
+        idx = [i for i, st in enumerate(body) if not isinstance(st, _Yield) and ast.unparse(st) == fn.end_before]
+        if not idx or fn.outputs is None:
+            raise Untranslatable('%s: no top-level statement %r' % (fn.name, fn.end_before))
+        body = body[:idx[0]]
+        if any(isinstance(n, ast.Return) for st in body for n in ast.walk(st)):
+            raise Untranslatable('%s: return inside the statement range' % fn.name)
+        body = body + [_Yield(list(fn.outputs))]
+    elif fn.outputs is not None:
+        if not body or not isinstance(body[-1], ast.Return) or any(
+                isinstance(n, ast.Return) for st in body[:-1] for n in ast.walk(st)):
+            raise Untranslatable('%s: the statement range must end in the only return' % fn.name)
+        body = body[:-1] + [_Yield(list(fn.outputs))]
+    body = tr.stmts(body, fn.ret)
     if tr.while_fuel:
         raise Untranslatable('unused while fuel declarations in ' + fn.name)
-    args = ' '.join('(%s : %s)' % (a, coq_type(t)) for a, t in fn.args)
+    args = ' '.join('(%s : %s)' % (a, coq_type(t)) for a, t in
+                    [('self_' + a, t) for a, t in (fn.attrs if tr.attrs else [])] +
+                    (list(fn.range_inputs) if fn.start_at is not None else list(fn.args)))
     return 'Definition %s %s : option %s :=\n  %s.\n' % (fn.coq_name, args, coq_type(fn.ret), body)
